@@ -22,7 +22,7 @@ LEVEL_TEXT = ("Translation validation: the scope filter is evaluated on all 8 co
               "derived field of N50Data is normalised and compared with the statement's formula; the inverse equation is checked to be the forward one solved for C_o "
               "(same 0.629); the guards are read as dominating comparisons. Decides these for every model; numeric agreement on concrete models is not decided.")
 LEVEL_NOTE = "Trusted: rustc MIR; exact-rational reading of literals."
-TECHNIQUE = "finite truth-table evaluation of the scope predicate + normalised formula comparison of field updates on MIR"
+TECHNIQUE = "finite truth-table evaluation of the scope predicate + normalised formula comparison of field updates on MIR + must-pass-through (n50 assigned on every path to a return)"
 FIXTURE_EXPECT = ["c09.formula"]
 
 
